@@ -13,6 +13,7 @@ import (
 
 	plugin "github.com/hashicorp/go-plugin"
 	"github.com/hashicorp/go-plugin/verifhook"
+	"google.golang.org/grpc"
 	"pgregory.net/rapid"
 )
 
@@ -26,7 +27,7 @@ type c20Case struct {
 	Warm    bool       `json:"warm"`       // the client is started before the goroutines begin
 }
 
-var c20OpNames = []string{"start", "client", "protocol", "id", "exited", "reattach", "version", "dispense_call", "ping", "nextid", "host_accept", "plugin_accept", "stdio", "kill"}
+var c20OpNames = []string{"start", "client", "protocol", "id", "exited", "reattach", "version", "dispense_call", "ping", "nextid", "host_accept", "plugin_accept", "stdio", "kill", "plugin_accept_lazy"}
 
 func c20Gen(t *rapid.T) any {
 	c := &c20Case{}
@@ -35,7 +36,7 @@ func c20Gen(t *rapid.T) any {
 	for g := 0; g < n; g++ {
 		var ops []string
 		for i, k := 0, 1+uniform(t, "nops", 7); i < k; i++ {
-			ops = append(ops, c20OpNames[weighted(t, "op", 8, 9, 7, 4, 5, 4, 5, 14, 7, 10, 10, 10, 4, 3)])
+			ops = append(ops, c20OpNames[weighted(t, "op", 8, 9, 7, 4, 5, 4, 5, 14, 7, 10, 10, 10, 4, 3, 8)])
 		}
 		c.Threads = append(c.Threads, ops)
 	}
@@ -204,6 +205,35 @@ func c20Run(ci any) (out Outcome) {
 								}
 							}
 							idMu.Unlock()
+						}
+					}
+				case "plugin_accept_lazy":
+					// The plugin accepts, the host's Dial returns (gRPC dials in the background, so the
+					// connection itself may not be up yet) and only then is the next establishment allowed
+					// to begin - the documented rule for multiplexing; the first call comes afterwards.
+					if get() {
+						id := atomic.AddUint32(&nextBrokerID, 1)
+						gh, isGRPC := h.(*grpcHandle)
+						if !isGRPC {
+							if _, err := h.DoT(Cmd{Op: "broker_accept", ID: id}, 10*time.Second); err == nil {
+								within(12*time.Second, func() { c14HostDial(h, id) })
+							}
+							break
+						}
+						if c.Proto == "grpcmux" {
+							muxSeq.Lock()
+						}
+						_, err := h.DoT(Cmd{Op: "broker_accept", ID: id}, 10*time.Second)
+						var bc *grpc.ClientConn
+						if err == nil {
+							bc, err = gh.broker.Dial(id)
+						}
+						if c.Proto == "grpcmux" {
+							muxSeq.Unlock()
+						}
+						if err == nil && bc != nil {
+							(&grpcHandle{cc: bc, service: "verif.Brokered"}).DoT(Cmd{Op: "tag"}, 12*time.Second)
+							bc.Close()
 						}
 					}
 				case "host_accept", "plugin_accept":
